@@ -248,6 +248,25 @@ func TestRaisedDuringBuiltin(t *testing.T) {
 		{"straight-line", map[string][]*gen.Node{"main.p": {gen.NCall("probe", gen.NStr("a")), gen.NSet("x", gen.NInt(1)), gen.NCall("probe", gen.NStr("b")), gen.NCall("probe", gen.NStr("c")), gen.NIf([]*gen.Node{gen.NBool(true)}, [][]*gen.Node{{gen.NCall("probe", gen.NStr("d")), gen.NCall("probe", gen.NStr("e"))}}, nil, false), gen.NCall("probe", gen.NStr("f"))}}, true, []int{1, 2, 3, 4, 5}},
 		{"for-in-string-nested", map[string][]*gen.Node{"main.p": {gen.NForIn("c", gen.NStr("abcd"), []*gen.Node{gen.NForIn("k", gen.NMap(gen.NStr("only"), gen.NInt(1)), []*gen.Node{gen.NCall("probe", gen.NStr("in"), id("c"), id("k"))}), gen.NCall("probe", gen.NStr("out"), id("c"))})}}, true, []int{1, 2, 3, 4, 5, 6}},
 	}
+	// the flag is raised while a loop header is evaluated for the last time (an iterable that yields nothing, the
+	// final condition, the final loop clause): the loop statement is the statement in progress, what follows it must not run
+	after := func() []*gen.Node {
+		return []*gen.Node{gen.NCall("probe", gen.NStr("after-1")), gen.NCall("probe", gen.NStr("after-2"))}
+	}
+	hdr := []prog{
+		{"for-in-empty-iterable", map[string][]*gen.Node{"main.p": append([]*gen.Node{gen.NCall("probe", gen.NStr("a")), gen.NForIn("x", gen.NCall("pval", gen.NList()), []*gen.Node{gen.NCall("probe", gen.NStr("body"))})}, after()...)}, true, []int{2}},
+		{"for-in-empty-string", map[string][]*gen.Node{"main.p": append([]*gen.Node{gen.NForIn("x", gen.NCall("pval", gen.NStr("")), []*gen.Node{gen.NCall("probe", gen.NStr("body"))})}, after()...)}, true, []int{1}},
+		{"for-in-empty-map", map[string][]*gen.Node{"main.p": append([]*gen.Node{gen.NForIn("x", gen.NCall("pval", gen.NMap()), []*gen.Node{gen.NCall("probe", gen.NStr("body"))})}, after()...)}, true, []int{1}},
+		{"for-final-condition", map[string][]*gen.Node{"main.p": append([]*gen.Node{gen.NFor(gen.NSet("i", gen.NInt(0)), gen.NBin("<", gen.NCall("pval", id("i")), gen.NInt(2)), inc("i"), []*gen.Node{gen.NCall("probe", gen.NStr("b"), id("i"))})}, after()...)}, true, []int{5}},
+		{"for-final-clause", map[string][]*gen.Node{"main.p": append([]*gen.Node{gen.NFor(gen.NSet("i", gen.NInt(0)), gen.NBin("<", id("i"), gen.NInt(2)), gen.NSet("i", gen.NCall("pval", gen.NBin("+", id("i"), gen.NInt(1)))), []*gen.Node{gen.NCall("probe", gen.NStr("b"), id("i"))})}, after()...)}, true, []int{4}},
+		{"for-false-at-once", map[string][]*gen.Node{"main.p": append([]*gen.Node{gen.NFor(nil, gen.NCall("pval", gen.NBool(false)), nil, []*gen.Node{gen.NCall("probe", gen.NStr("b"))})}, after()...)}, true, []int{1}},
+		{"for-init-only", map[string][]*gen.Node{"main.p": append([]*gen.Node{gen.NFor(gen.NSet("i", gen.NCall("pval", gen.NInt(5))), gen.NBin("<", id("i"), gen.NInt(2)), inc("i"), []*gen.Node{gen.NCall("probe", gen.NStr("b"))})}, after()...)}, true, []int{1}},
+		{"inner-loop-ends-in-outer-body", map[string][]*gen.Node{"main.p": {gen.NFor(gen.NSet("o", gen.NInt(0)), gen.NBin("<", id("o"), gen.NInt(3)), inc("o"), append([]*gen.Node{gen.NForIn("x", gen.NCall("pval", gen.NList()), []*gen.Node{gen.NCall("probe", gen.NStr("body"))})}, after()...)), gen.NCall("probe", gen.NStr("end"))}}, true, []int{1, 2}},
+		{"if-condition", map[string][]*gen.Node{"main.p": append([]*gen.Node{gen.NIf([]*gen.Node{gen.NCall("pval", gen.NBool(false)), gen.NCall("pval", gen.NBool(false))}, [][]*gen.Node{{gen.NCall("probe", gen.NStr("then"))}, {gen.NCall("probe", gen.NStr("elif"))}}, nil, false)}, after()...)}, true, []int{2}},
+		{"callee-loop-ends", map[string][]*gen.Node{"main.p": append([]*gen.Node{gen.NCall("use", gen.NStr("s1.p"))}, after()...),
+			"s1.p": {gen.NForIn("x", gen.NCall("pval", gen.NList()), []*gen.Node{gen.NCall("probe", gen.NStr("body"))}), gen.NCall("probe", gen.NStr("callee-after"))}}, false, []int{1}},
+	}
+	progs = append(progs, hdr...)
 	for _, w := range []int64{0, 10, 1000, 3000, 5000, 9000} {
 		// a caller that has been running for a while, then a callee in which the flag is raised, then three more statements
 		progs = append(progs, prog{fmt.Sprintf("warm-%d-then-callee", w), map[string][]*gen.Node{
